@@ -111,6 +111,12 @@ Release(a) ==
   /\ pc' = [pc EXCEPT ![a] = "done"]
   /\ UNCHANGED <<noMore, adir, akey, areq, nreq>>
 
+\* the client of a request goes away while its attempts still wait for the lock (BrokerCtl!Hangup)
+Hangup(a) ==
+  /\ pc[a] = "lock" /\ a \notin cancelled /\ ~noMore
+  /\ cancelled' = cancelled \union {b \in Att : areq[b] = areq[a] /\ (pc[b] = "lock" \/ pc[b] = "proxy")}
+  /\ UNCHANGED <<key, cIn, cOut, noMore, pc, adir, akey, areq, nreq>>
+
 Shutdown ==
   /\ ~noMore /\ noMore' = TRUE
   /\ UNCHANGED <<key, cIn, cOut, pc, adir, akey, areq, cancelled, nreq>>
@@ -118,7 +124,7 @@ Shutdown ==
 Next ==
   \/ \E a \in Att, d \in {"in", "out"}, k \in UniKeys : ArriveUni(a, d, k)
   \/ \E a, b \in Att : ArriveIO(a, b)
-  \/ \E a \in Att : Admit(a) \/ ProxyEnd(a) \/ Release(a)
+  \/ \E a \in Att : Admit(a) \/ ProxyEnd(a) \/ Release(a) \/ Hangup(a)
   \/ Shutdown
 
 -----------------------------------------------------------------------------
